@@ -14,7 +14,7 @@ open XcmModel XcmModel.TimerMgr
 
 def MAX_RESULT : Nat := Generated.XCM_DNS_MAX_RESULT_SIZE
 def SEC : Nat := 1000000000
-def DEFAULT_OVERALL_TIMEOUT : Nat := 10 * SEC
+def DEFAULT_OVERALL_TIMEOUT : Nat := Generated.DNS_DEFAULT_OVERALL_TIMEOUT * SEC
 def EPOLLIN : Nat := 1
 def EPOLLOUT : Nat := 4
 
